@@ -188,7 +188,9 @@ def impl(case):
     probes = []
     all_opts = sorted({o for s in sets if s for o in s})
     if len(all_opts) <= 40:
-        for opt in all_opts:
+        # one real parse per option string (a fresh parser each); large forests: an evenly spaced sample of 16
+        probe_opts = all_opts if len(all_opts) <= 16 else all_opts[:: max(1, len(all_opts) // 16)][:16]
+        for opt in probe_opts:
             p2 = _build(c)
             res = sp.run_outcome(lambda: p2.parse_args([opt, "7"]))
             if res["o"] == "ok":
